@@ -215,3 +215,44 @@ def identifier_escape_texts():
                          '%s: for (;;) break %s', 'x = {get %s() {}}', 'try {} catch (%s) {}', 'x = %s in y',
                          'typeof %s'):
                 yield ctxt.replace('%s', name % esc)
+
+
+def multiline_token_texts():
+    """a token that spans physical lines (a string with a line continuation, a comment holding a line terminator, a
+    regex cannot) followed by more tokens on its last line: the line break inside a string is no line terminator
+    between tokens, the one inside a comment is"""
+    conts = ['\\\n', '\\\r', '\\\r\n', '\\\u2028', '\\\u2029']
+    toks = ['"a%sb"' % c for c in conts] + ["'%s'" % conts[0], '"a%sb%sc"' % (conts[0], conts[2])] + \
+        ['/* a\n b */', '/* a\r\n b */', '/*\u2028*/']
+    tails = [' y', ' y = 1', ' var t', ' "c"', ' ++y', ' (y)', ' [0]', '\ny', ' ; y', ' + y', ' y\n', ' /re/.test(y)', ' in y',
+             ' function g(){}', ' }', '']
+    out = []
+    for t in toks:
+        for tail in tails:
+            out.append('x = %s%s' % (t, tail))
+            out.append('var s = 1 %s%s' % (t, tail))
+            out.append('function f() { return %s%s }' % (t, tail))
+    return out
+
+
+def deep_chain_texts(depths=(60, 130, 200, 300)):
+    """legal programs whose trees are deep rather than wide: what a printer keeps per level adds up"""
+    out = []
+    for n in depths:
+        out.append(('sum_chain', n, 'x = ' + ' + '.join(['a'] * n) + ';'))
+        out.append(('member_chain', n, 'x = a' + '.b' * n + ';'))
+        out.append(('call_chain', n, 'a' + '()' * n + ';'))
+        out.append(('else_if_chain', n, ' else '.join('if (a%d) b%d;' % (k, k) for k in range(n))))
+        out.append(('nested_arrays', n, 'x = ' + '[' * n + '1' + ']' * n + ';'))
+        out.append(('nested_blocks', n, '{' * n + 'x;' + '}' * n))
+        out.append(('nested_calls', n, 'f(' * n + '1' + ')' * n + ';'))
+        out.append(('nested_parens', n, 'x = ' + '(' * n + 'a' + ')' * n + ';'))
+        out.append(('conditional_chain', n, 'x = ' + ' : '.join('a%d ? b%d' % (k, k) for k in range(n)) + ' : c;'))
+        out.append(('assignment_chain', n, ' = '.join('a%d' % k for k in range(n)) + ' = 1;'))
+        out.append(('comma_chain', n, ', '.join(['a'] * n) + ';'))
+        out.append(('unary_chain', n, 'x = ' + '!' * n + 'a;'))
+        if n <= 130:
+            out.append(('nested_callbacks', n, 'f(function () { ' * n + 'x;' + ' });' * n))
+            out.append(('nested_objects', n, 'x = ' + '{k: ' * n + '1' + '}' * n + ';'))
+            out.append(('nested_ifs', n, 'if (a) ' * n + 'b;'))
+    return out
